@@ -236,6 +236,13 @@ func Yield(kind, site string, obj any, guard func() bool) {
 	}
 }
 
+// IsAborting reports whether the current scheduler is unwinding its threads (the shims
+// then tolerate unlocks of mutexes the unwinding code does not hold).
+func IsAborting() bool {
+	s := cur.Load()
+	return s != nil && s.Aborting.Load()
+}
+
 // Release lets a parked thread run. The caller must then wait for quiescence.
 func (s *Sched) Release(t *Thread) {
 	s.mu.Lock()
@@ -276,13 +283,7 @@ func (s *Sched) AbortAll() {
 	for _, t := range ts {
 		if t.Parked && !t.Done {
 			t.Parked = false
-			select {
-			case t.wake <- struct{}{}:
-			default:
-				// the goroutine has not reached its wake receive yet; close is safe
-				// because nobody sends on wake afterwards.
-				close(t.wake)
-			}
+			t.wake <- struct{}{}
 		}
 	}
 }
